@@ -25,6 +25,8 @@ var solvers = []solverSpec{
 	{"z3", func(f string, s int) []string { return []string{"z3", "-smt2", fmt.Sprintf("-T:%d", s), f} }},
 }
 
+var confirmUnsat bool
+
 type solveOut struct {
 	solver string
 	res    string // sat | unsat | unknown | timeout | error
@@ -129,6 +131,25 @@ func discharge(o *Obligation, dir string, secs int, wantModel bool) {
 		for _, r := range outs {
 			if r.res == "error" {
 				o.Note += " | " + r.solver + ": " + firstLines(r.out, 3)
+			}
+		}
+	}
+	if o.Result == "unsat" && o.Expect == "unsat" && confirmUnsat {
+		// thorough tier: every unsat is confirmed by a second, different solver when one answers in time
+		for _, sp := range solvers {
+			if sp.name == o.Solver {
+				continue
+			}
+			r := runSolver(context.Background(), sp, file, secs)
+			if r.res == "unsat" {
+				o.Confirmed = sp.name
+				break
+			}
+			if r.res == "sat" {
+				o.Result = "sat"
+				o.Note = "DISAGREEMENT: " + o.Solver + " unsat, " + sp.name + " sat"
+				o.Solver = sp.name
+				break
 			}
 		}
 	}
